@@ -19,6 +19,11 @@ partial def parsePol : List String → Option (Pol × List String)
 
 def nats (l : List String) : Option (List Nat) := l.mapM (·.toNat?)
 
+def pol1 (l : List String) : Option Pol :=
+  match parsePol l with
+  | some (p, []) => some p
+  | _ => none
+
 def answer (line : String) : String :=
   let toks := (line.trimAscii.toString.splitOn " ").filter (· ≠ "")
   let (head, tail) := toks.span (· ≠ ";")
@@ -26,24 +31,23 @@ def answer (line : String) : String :=
   let r : Option String :=
     match head with
     | "idx" :: p => do
-        let (p, rest) ← parsePol p
-        if rest ≠ [] then none
+        let p ← pol1 p
         let l ← nats args
         if l.length ≠ p.arity then none
         some (toString (p.index l))
-    | "min" :: p => do let (p, []) ← parsePol p | none; some (toString p.minSize)
-    | "size" :: p => do let (p, []) ← parsePol p | none; some (toString p.size)
-    | "arity" :: p => do let (p, []) ← parsePol p | none; some (toString p.arity)
-    | "contig" :: p => do let (p, []) ← parsePol p | none; some (if p.contiguous then "1" else "0")
+    | "min" :: p => (pol1 p).map fun p => toString p.minSize
+    | "size" :: p => (pol1 p).map fun p => toString p.size
+    | "arity" :: p => (pol1 p).map fun p => toString p.arity
+    | "contig" :: p => (pol1 p).map fun p => if p.contiguous then "1" else "0"
     | "varr" :: st :: p => do
         let st ← st.toNat?
-        let (p, []) ← parsePol p | none
+        let p ← pol1 p
         match ← nats args with
         | i :: l => if l.length ≠ p.arity then none else some (toString (viewsArrayCell 0 st p i l))
         | [] => none
     | "sco" :: st :: p => do
         let st ← st.toNat?
-        let (p, []) ← parsePol p | none
+        let p ← pol1 p
         let l ← nats args
         if l.length ≠ p.arity then none
         some (toString (stridedCoalescedCell 0 st p l))
